@@ -456,6 +456,8 @@ where
         let hash = self.hasher.hash_one(&key);
 
         let shard_index = self.shard(hash);
+        #[cfg(feature = "verif")]
+        crate::verif::failpoint(crate::verif::Site::InternBeforeShardLock);
         // SAFETY: `shard_index` is guaranteed to be in-bounds for `self.shards`.
         let shard = unsafe { &mut *self.shards.get_unchecked(shard_index).lock() };
 
